@@ -71,3 +71,27 @@ def Net.ofExprs {n : Nat} (es : Vector BExpr n) : Net n where
   f := fun i s => (es[i]).eval s
 
 end Balm
+
+namespace Balm
+
+/-- **C17 (equivalent formulas).** Two vectors of update expressions that evaluate equally on every
+    state denote the *same* semantic network – so everything the model computes from the network
+    (percolation, trap spaces, diagram, attractors, control) is identical for them. -/
+theorem Net.ofExprs_congr {n : Nat} (es es' : Vector BExpr n)
+    (h : ∀ (i : Fin n) (s : State n), (es[i]).eval s = (es'[i]).eval s) :
+    Net.ofExprs es = Net.ofExprs es' := by
+  unfold Net.ofExprs
+  congr
+  funext i s
+  exact h i s
+
+/-- e.g. De Morgan and double negation do not change the network -/
+example : Net.ofExprs (n := 2) #v[.not (.or (.not (.var 0)) (.not (.var 1))), .not (.not (.var 0))]
+    = Net.ofExprs #v[.and (.var 0) (.var 1), .var 0] := by
+  apply Net.ofExprs_congr
+  intro i s
+  match i with
+  | ⟨0, _⟩ => simp [BExpr.eval]
+  | ⟨1, _⟩ => simp [BExpr.eval]
+
+end Balm
